@@ -1,4 +1,5 @@
 """Engine M, part 2: the per-property queries over the MIR encoding."""
+import copy
 import os
 import re
 import time
@@ -1171,10 +1172,12 @@ def c11_all(mir, ctx):
     return c11_b64_group(mir, ctx) + protocol_groups(mir, ctx, {"reject"})
 
 
-def iter_models(ctx, lens):
+def iter_models(ctx, lens, consistent=False):
     """Models of slices/iterators by (underlying collection, position) kept in the per-path heap: the
     k-th element of a collection has ONE identity however often and however (iter, zip, enumerate,
-    indexing) it is visited.  Returns (models, what_of, coll)."""
+    indexing) it is visited.  Returns (models, what_of, coll).  With consistent=True the first
+    complete pass over a collection fixes its length for the rest of the path (later passes yield
+    exactly that many elements); the collection must not change length in between."""
 
     def memo_len(key):
         if key not in lens:
@@ -1204,7 +1207,7 @@ def iter_models(ctx, lens):
         return m_iter(ex, callee, args, pc, events)
 
     def m_zip(ex, callee, args, pc, events):
-        return [(pc, events, OpaqueV("zip(%s,%s)" % (what_of(ex, args[0]), what_of(ex, args[1]))))]
+        return [(pc, events, OpaqueV("zip(%s\x1f%s)" % (what_of(ex, args[0]), what_of(ex, args[1]))))]
 
     def m_enumerate(ex, callee, args, pc, events):
         return [(pc, events, OpaqueV("enum(%s)" % what_of(ex, args[0])))]
@@ -1216,7 +1219,7 @@ def iter_models(ctx, lens):
                 depth += 1
             elif ch == ")":
                 depth -= 1
-            elif ch == "," and depth == 0:
+            elif ch == "\x1f" and depth == 0:
                 return inner[:i], inner[i + 1:]
         raise EncodingError("zip descriptor %r" % inner)
 
@@ -1240,15 +1243,44 @@ def iter_models(ctx, lens):
         evs.append(("elem", ident))
         return OpaqueV(ident), pos
 
+    def leaves(desc):
+        if desc.startswith("zip("):
+            a, b = split2(desc[4:-1])
+            return leaves(a) + leaves(b)
+        if desc.startswith("enum("):
+            return leaves(desc[5:-1])
+        mm = re.match(r"^it#(\d+)\|(.*)$", desc)
+        return [(int(mm.group(1)), mm.group(2))] if mm else []
+
     def m_next(ex, callee, args, pc, events):
         desc = what_of(ex, args[0])
+        can_some, can_none = True, True
+        if consistent:
+            known = ex.heap.setdefault("$lens", {})
+            lv = leaves(desc)
+            st = [(ex.heap["$iters"][iid], known.get(under)) for iid, under in lv]
+            if any(n is not None and pos >= n for pos, n in st):
+                can_some = False            # some component is exhausted
+            elif st and all(n is not None for _pos, n in st):
+                can_none = False            # every component has elements left
         saved = copy_heap(ex)
-        evs = []
-        item, _ = advance(ex, desc, evs)
-        hp_some = copy_heap(ex)
-        ex.heap = saved
-        return [(pc, events + evs, EnumV(variant=1, fields=[item]), hp_some),
-                (pc, events + [("iter-done", desc)], EnumV(variant=0, fields=[]), copy_heap(ex))]
+        res = []
+        if can_some:
+            evs = []
+            item, _ = advance(ex, desc, evs)
+            hp_some = copy_heap(ex)
+            ex.heap = saved
+            res.append((pc, events + evs, EnumV(variant=1, fields=[item]), hp_some))
+        if can_none:
+            ex.heap = copy_heap(ex)
+            if consistent:
+                lv = leaves(desc)
+                if len(lv) == 1 and lv[0][1] not in ex.heap["$lens"]:
+                    ex.heap["$lens"][lv[0][1]] = ex.heap["$iters"][lv[0][0]]
+            hp_none = copy_heap(ex)
+            ex.heap = saved
+            res.append((pc, events + [("iter-done", desc)], EnumV(variant=0, fields=[]), hp_none))
+        return res
 
     def copy_heap(ex):
         import copy as _c
@@ -1269,7 +1301,18 @@ def iter_models(ctx, lens):
     def m_deref(ex, callee, args, pc, events):
         return [(pc, events, OpaqueV("slice:" + coll(what_of(ex, args[0]))))]
 
-    models = [
+    def m_vec_push(ex, callee, args, pc, events):
+        # a vector created empty on this path grows by one; its length stays known
+        name = coll(what_of(ex, args[0]))
+        known = ex.heap.setdefault("$lens", {})
+        if re.search(r"^ret#\d+:.*Vec::(<.*>::)?(new|with_capacity)$", name) and (name in known or not any(
+                u == name for u in [re.sub(r"\[\d+\]$", "", e[1]) for e in events if e[0] == "elem"])):
+            known[name] = known.get(name, 0) + 1
+        else:
+            known.pop(name, None)
+        return [(pc, events + [("push", name, what_of(ex, args[1]))], TupleV([]))]
+
+    models = ([(r"Vec::<.*>::push$", m_vec_push)] if consistent else []) + [
         (r"as Deref(Mut)?>::deref(_mut)?$", m_deref),
         (r"impl \[.*\]>::iter(_mut)?$", m_iter), (r"as IntoIterator>::into_iter$", m_into_iter),
         (r"as Iterator>::zip::<", m_zip), (r"as Iterator>::enumerate$", m_enumerate), (r"as Iterator>::next$", m_next),
@@ -1432,7 +1475,7 @@ def c08_update_accounting_group(mir, ctx):
               confirm=_scenarios,
               note="on every path of Update::exec that reaches the final write, each overwritten cell releases its previous reference exactly "
                    "once and takes exactly one new reference: the events are pairs remove(cell) ... create(value), never a create without its remove")
-    nproceed = 0
+    nproceed = npaired = 0
     for k, o in enumerate(outs):
         if o.kind != "stopped" or o.msg != "proceed":
             continue
@@ -1457,9 +1500,10 @@ def c08_update_accounting_group(mir, ctx):
         if not ok:
             g.queries.append(Query("unpaired_%d" % k, o.pc, "unsat", note=why))
         else:
-            g.queries.append(Query("paired_%d" % k, ["false"], "unsat"))
-        if seq:
+            npaired += 1
+        if seq and len(g.witness) < 40:
             g.witness.append(Query("w_%d" % k, o.pc, "sat"))
+    g.queries.append(Query("paired_paths", ["false"], "unsat", note="%d paths reach the final write with structurally paired remove/create events" % npaired))
     if nproceed < 2 or not g.witness:
         raise EncodingError("update accounting: %d paths reach the final write, %d with updated cells" % (nproceed, len(g.witness)))
     return [g]
@@ -1794,6 +1838,295 @@ def c12_select_gate_group(mir, ctx):
     return [g]
 
 
+# --------------------------------------------------------------------------
+# C05: Update::exec keeps cells valid and primary keys unique and ordered
+# --------------------------------------------------------------------------
+
+def c05_update_group(mir, ctx):
+    """Update::exec with its loops unrolled (<= 2 assignments, <= 2 rows; each MIR block visited at
+    most 3 times per path), iteration lengths consistent along a path, `Column::is_valid_value`,
+    `Table::has_column`, `Column::is_primary_key` uninterpreted predicates of their arguments'
+    identities, the key-set operations and the sort events."""
+    cands = [f for n, fs in mir.fns.items() for f in fs if n.endswith("::exec") and f.args and re.search(r"\bUpdate\b", f.args[0][1])]
+    if len(cands) != 1:
+        raise EncodingError("Update::exec not found uniquely in the MIR dump (%d)" % len(cands))
+    fn = cands[0]
+    from .mir_protocol import struct_fields, _confirm_keys
+    lens = {}
+    it_models, what_of, coll = iter_models(ctx, lens, consistent=True)
+    pk = {}
+
+    def pk_term(col):
+        if col not in pk:
+            pk[col] = ctx.fresh_bool("is_primary_key").term
+        return pk[col]
+
+    def m_has(ex, callee, args, pc, events):
+        b = ctx.fresh_bool("has_column")
+        return [(pc, events + [("has", what_of(ex, args[1]), b.term)], BoolV(b.term))]
+
+    def m_get_column(ex, callee, args, pc, events):
+        return [(pc, events, EnumV(variant=1, fields=[OpaqueV("column(%s)" % what_of(ex, args[1]))]))]
+
+    def m_valid(ex, callee, args, pc, events):
+        b = ctx.fresh_bool("is_valid_value")
+        return [(pc, events + [("valid", what_of(ex, args[0]), what_of(ex, args[1]), b.term)], BoolV(b.term))]
+
+    def m_is_pk(ex, callee, args, pc, events):
+        return [(pc, events, BoolV(pk_term(what_of(ex, args[0]))))]
+
+    def m_unwrap(ex, callee, args, pc, events):
+        o = ex.load(args[0])
+        return [(pc, events, o.fields[0] if isinstance(o, EnumV) and o.fields else OpaqueV("unwrapped"))]
+
+    def m_same(ex, callee, args, pc, events):
+        return [(pc, events, OpaqueV(what_of(ex, args[0])))]
+
+    def m_index_of(ex, callee, args, pc, events):
+        return [(pc, events, EnumV(variant=1, fields=[OpaqueV("index(%s)" % what_of(ex, args[1]))]))]
+
+    def m_event(tag, ret=lambda: TupleV([])):
+        return lambda ex, callee, args, pc, events: [(pc, events + [(tag,) + tuple(what_of(ex, a) for a in args)], ret())]
+
+    def m_contains(ex, callee, args, pc, events):
+        b = ctx.fresh_bool("key_present")
+        return [(pc, events + [("key-check", b.term)], BoolV(b.term))]
+
+    def m_any(ex, callee, args, pc, events):
+        mm = re.search(r"any::<\{closure@([^}]*)\}>", callee)
+        if not mm:
+            raise EncodingError("Iterator::any with a non-closure predicate in Update::exec: %s" % callee)
+        span = mm.group(1)
+        tg = [f for n, fs in mir.fns.items() for f in fs if f.args and ("{closure@%s}" % span) in f.args[0][1]]
+        if len(tg) != 1:
+            raise EncodingError("closure %s not found in the MIR dump" % span)
+        desc = what_of(ex, args[0])
+        mi = re.match(r"^it#(\d+)\|(.*)$", desc)
+        if not mi:
+            raise EncodingError("any over %r" % desc)
+        under = mi.group(2)
+        envv = ex.load(args[1])
+        res = []
+        known = ex.heap.setdefault("$lens", {})
+        ns = [known[under]] if under in known else [0, 1, 2]
+        for n in ns:
+            # any() over the first n elements, evaluated without short-circuit (the closure is pure)
+            states = [(pc, events, [], copy.deepcopy(ex.heap))]
+            for k in range(n):
+                nxt = []
+                for (cpc, cev, terms, hp) in states:
+                    ex.heap = copy.deepcopy(hp)
+                    for o in ex.run(tg[0], [RefV(envv), RefV(OpaqueV("%s[%d]" % (under, k)))], cpc, cev + [("elem", "%s[%d]" % (under, k))], 5):
+                        if o.kind != "return":
+                            raise EncodingError("any-closure does not return: %s" % o.kind)
+                        v = o.value
+                        nxt.append((o.pc, o.events, terms + [v.term if isinstance(v, BoolV) else "false"], o.heap))
+                states = nxt
+            for (cpc, cev, terms, hp) in states:
+                hp = copy.deepcopy(hp)
+                hp.setdefault("$lens", {})[under] = n
+                t = "false" if not terms else ("(or %s)" % " ".join(terms) if len(terms) > 1 else terms[0])
+                res.append((cpc, cev + [("any", under, n)], BoolV(t), hp))
+        return res
+
+    models = [
+        (r"Table::has_column$", m_has), (r"Table::get_column$", m_get_column), (r"Column::is_valid_value$", m_valid),
+        (r"Column::is_primary_key$", m_is_pk), (r"Option::<.*>::unwrap$", m_unwrap),
+        (r"String::as_str$|<String as Deref>::deref$", m_same), (r"Table::index_for_column_name$", m_index_of),
+        (r"as Iterator>::any::<", m_any),
+        (r"ValueRef::remove$", m_event("mutate")), (r"ValueRef::create$", m_event("mutate", lambda: OpaqueV("new-ref"))),
+        (r"HashSet::<Vec<Value>>::contains::<", m_contains), (r"HashSet::<Vec<Value>>::insert$", m_event("key-insert", lambda: BoolV("true", True))),
+        (r"BTreeMap::<Vec<Value>, .*>::contains_key::<", m_contains), (r"BTreeMap::<Vec<Value>, .*>::insert$", m_event("key-insert", lambda: EnumV(variant=0, fields=[]))),
+        (r"sort(_unstable)?(_by)?(_cached)?(_key)?::<", m_event("sort")),
+        (r"Value::to_bool$", lambda ex, callee, args, pc, events: [(pc, events, BoolV(ctx.fresh_bool("matches").term))]),
+    ] + it_models
+
+    def stop_at(f, bb, term):
+        if "::create_stream::<" in term and f is fn:
+            return "write"
+        return None
+
+    ex = M.Exec(mir, ctx, models=models, stop_at=stop_at, havoc_unknown=True, max_paths=400000)
+    ex.max_revisit = 3
+    ex.no_inline = [r"Table::(stream_name|name|columns|long_string_refs|read_rows|primary_key_indices)$", r"Expr::(eval|column_names)$", r"Row::new$",
+                    r"ValueRef::to_value$", r"closure"]
+    qsrc = open(os.path.join(REPO, "src/internal/query.rs")).read()
+    ufields = struct_fields(qsrc, "Update")
+    ex.new_obj("update", [OpaqueV("update." + f) for f in ufields])
+    outs = ex.run(fn, [M.ObjV("update"), OpaqueV("comp"), OpaqueV("pool"), OpaqueV("tables")])
+    gv = Group("update_cells_valid", ["query::Update::exec (loops unrolled)", "column::Column::is_valid_value (uninterpreted)"], confirm=_confirm_keys,
+               note="on every path of Update::exec that modifies a cell or rewrites the table, every assignment (column name, value) of the statement "
+                    "(<= 2) was checked beforehand: the table has the column, and Column::is_valid_value(that column, that value) holds")
+    gk = Group("update_keys", ["query::Update::exec (loops unrolled)", "column::Column::is_primary_key (uninterpreted)"], confirm=_confirm_keys,
+               note="on every path of Update::exec that modifies a cell and reaches the final write while one of the assigned columns is a primary-key "
+                    "column: before the first cell is modified every row's resulting key went through a key-set membership test whose 'already "
+                    "present' outcome does not reach the write, and after the last modification the rows were re-sorted")
+    nwrite = nmut = 0
+    for k, o in enumerate(outs):
+        evs = o.events
+        first_mut = next((n for n, e in enumerate(evs) if e[0] == "mutate"), None)
+        wrote = (o.kind == "stopped" and o.msg == "write")
+        if first_mut is None and not wrote:
+            continue
+        cut = first_mut if first_mut is not None else len(evs)
+        before = evs[:cut]
+        # ---- cells valid
+        assigns = sorted(set(e[1] for e in evs if e[0] == "elem" and re.fullmatch(r"update\.updates\[\d+\]", e[1])))
+        for a in assigns:
+            hs = [h for h in before if h[0] == "has" and h[1].startswith(a + ".")]
+            vs = [v for v in before if v[0] == "valid" and v[2].startswith(a + ".") and v[1] == "column(%s.0)" % a]
+            if not hs or not vs:
+                gv.queries.append(Query("unchecked_%d_%d" % (k, len(gv.queries)), o.pc, "unsat",
+                                        note="assignment %s is applied (or the table rewritten) without the column lookup / is_valid_value check of exactly that column and value beforehand" % a))
+            for h in hs:
+                gv.queries.append(Query("has_%d_%d" % (k, len(gv.queries)), o.pc + [s_not(h[2])], "unsat", note="an assignment to a column the table lacks reaches the modification phase"))
+            for v in vs:
+                gv.queries.append(Query("valid_%d_%d" % (k, len(gv.queries)), o.pc + [s_not(v[3])], "unsat", note="a value that is not valid for its column reaches the modification phase"))
+        if wrote:
+            nwrite += 1
+            if len(gv.witness) < 30:
+                gv.witness.append(Query("wv_%d" % k, o.pc, "sat"))
+        # ---- keys
+        if not (wrote and first_mut is not None):
+            continue
+        nmut += 1
+        P = [pk_term("column(%s.0)" % a) for a in assigns]
+        some_pk = P[0] if len(P) == 1 else "(or %s)" % " ".join(P)
+        checks = [e for e in before if e[0] == "key-check"]
+        # the row collection: parent of the cells that are modified
+        rcs = set(mm.group(1) for e in evs if e[0] == "mutate" for mm in [re.match(r"^(.*?)\[\d+\]\[\?.*\]$", e[1])] if mm)
+        if len(rcs) != 1:
+            raise EncodingError("update keys: cannot identify the row collection from the modified cells: %r / %r" % (sorted(rcs)[:3], [e for e in evs if e[0] == "mutate"][:2]))
+        rc = rcs.pop()
+        nrows = len(set(e[1] for e in evs if e[0] == "elem" and re.fullmatch(re.escape(rc) + r"\[\d+\]", e[1])))
+        if len(checks) < nrows:
+            gk.queries.append(Query("nogate_%d" % k, o.pc + [some_pk], "unsat",
+                                    note="cells of a primary-key column are rewritten although not every row's (%d rows) resulting key was tested for collisions first (%d tests)" % (nrows, len(checks))))
+        for c in checks:
+            gk.queries.append(Query("collide_%d_%d" % (k, len(gk.queries)), o.pc + [c[1]], "unsat", note="a key collision found by the membership test still reaches the table rewrite"))
+        last_mut = max(n for n, e in enumerate(evs) if e[0] == "mutate")
+        if not any(e[0] == "sort" for e in evs[last_mut:]):
+            gk.queries.append(Query("nosort_%d" % k, o.pc + [some_pk], "unsat", note="cells of a primary-key column are rewritten and the rows are written back without being re-sorted by key"))
+        if len(gk.witness) < 30:
+            gk.witness.append(Query("wk_%d" % k, o.pc + [some_pk], "sat"))
+    gv.queries.append(Query("paths", ["false"], "unsat", note="%d paths reach the final write" % nwrite))
+    gk.queries.append(Query("paths", ["false"], "unsat", note="%d paths modify cells and reach the final write" % nmut))
+    if nwrite < 4 or nmut < 2:
+        raise EncodingError("update group: %d paths reach the write, %d of them modify cells" % (nwrite, nmut))
+    return [gv, gk]
+
+
+def c05_insert_group(mir, ctx):
+    """Insert::exec after its validation phase (Column::is_valid_value is taken as true here: the
+    validation gate is C07's law), loops unrolled (<= 2 existing rows, <= 2 new rows), lengths
+    consistent along a path; the key map / key set operations, ValueRef::create and the final write
+    are events."""
+    cands = [f for n, fs in mir.fns.items() for f in fs if n.endswith("::exec") and f.args and re.search(r"\bInsert\b", f.args[0][1])]
+    if len(cands) != 1:
+        raise EncodingError("Insert::exec not found uniquely in the MIR dump (%d)" % len(cands))
+    fn = cands[0]
+    from .mir_protocol import struct_fields, _confirm_keys
+    lens = {}
+    it_models, what_of, coll = iter_models(ctx, lens, consistent=True)
+    cur = {"row": None}
+
+    def m_check(tag):
+        def f(ex, callee, args, pc, events):
+            b = ctx.fresh_bool("key_present")
+            return [(pc, events + [(tag, coll(what_of(ex, args[0])), b.term)], BoolV(b.term))]
+        return f
+
+    def m_ev(tag, ret):
+        return lambda ex, callee, args, pc, events: [(pc, events + [(tag,) + tuple(coll(what_of(ex, a)) for a in args)], ret())]
+
+    def m_desc(fmt, n):
+        return lambda ex, callee, args, pc, events: [(pc, events, OpaqueV(fmt % tuple(coll(what_of(ex, a)) for a in args[:n])))]
+
+    models = [
+        (r"BTreeMap::<String, Rc<Table>>::get::<", lambda ex, callee, args, pc, events: [(pc, events, EnumV(variant=1, fields=[OpaqueV("rc-table")]))]),
+        (r"Column::is_valid_value$", lambda ex, callee, args, pc, events: [(pc, events, BoolV("true", True))]),
+        (r"BTreeMap::<Vec<Value>, Vec<ValueRef>>::contains_key::<", m_check("map-check")),
+        (r"HashSet::<Vec<Value>>::contains::<", m_check("set-check")),
+        (r"HashSet::<Vec<Value>>::insert$", m_ev("set-insert", lambda: BoolV("true", True))),
+        (r"BTreeMap::<Vec<Value>, Vec<ValueRef>>::insert$", m_ev("map-insert", lambda: EnumV(variant=0, fields=[]))),
+        (r"BTreeMap::<Vec<Value>, Vec<ValueRef>>::into_values$", m_desc("into_values(%s)", 1)),
+        (r"as Iterator>::collect::<Vec<Vec<ValueRef>>>$", m_desc("vec(%s)", 1)),
+        (r"ValueRef::create$", m_ev("mutate", lambda: OpaqueV("new-ref"))),
+        (r"Table::write_rows::<", m_ev("write", lambda: EnumV(variant=0, fields=[TupleV([])]))),
+    ] + it_models
+    ex = M.Exec(mir, ctx, models=models, havoc_unknown=True, max_paths=400000)
+    ex.max_revisit = 3
+    ex.no_inline = [r"Table::(stream_name|name|columns|long_string_refs|read_rows|primary_key_indices|write_rows)", r"ValueRef::to_value$", r"closure"]
+    qsrc = open(os.path.join(REPO, "src/internal/query.rs")).read()
+    ifields = struct_fields(qsrc, "Insert")
+    ex.new_obj("insert", [OpaqueV("insert." + f) for f in ifields])
+    outs = ex.run(fn, [M.ObjV("insert"), OpaqueV("comp"), OpaqueV("pool"), OpaqueV("tables")])
+    g = Group("insert_keys", ["query::Insert::exec (loops unrolled; validation taken as passed)"], confirm=_confirm_keys,
+              note="on every path of Insert::exec that takes a reference for a new cell or writes the table: before that, for every row of the "
+                   "batch (<= 2) a membership test of its key in the key-ordered map of existing rows AND one in the set of keys of the batch "
+                   "were made, whose 'present' outcomes do not get that far; every batch row is then inserted into that map, and what is "
+                   "written is exactly the map's values in key order (BTreeMap::into_values), nothing re-ordered afterwards")
+    nwrite = 0
+    new_rows = "insert.new_rows"
+    for k, o in enumerate(outs):
+        evs = o.events
+        batch = sorted(set(e[1] for e in evs if e[0] == "elem" and re.fullmatch(re.escape(new_rows) + r"\[\d+\]", e[1])))
+        # the modification phase starts where the first batch row is interned: ValueRef::create runs inside the
+        # closure of the `map` right before that row's insertion into the map (the closure itself is not walked)
+        cur_row, first_mut, ins_rows = None, None, []
+        for n, e in enumerate(evs):
+            if e[0] == "elem" and not re.search(r"\]\[|\]\.", e[1]):
+                cur_row = e[1] if e[1] in batch else None
+            elif e[0] == "map-insert" and cur_row is not None:
+                ins_rows.append(cur_row)
+                if first_mut is None:
+                    first_mut = n
+            elif e[0] in ("mutate", "write") and first_mut is None:
+                first_mut = n
+        if first_mut is None:
+            continue
+        wrote = any(e[0] == "write" for e in evs)
+        before = evs[:first_mut]
+        # attribute each membership test to the batch row being visited when it was made
+        per = {r: {"map-check": [], "set-check": []} for r in batch}
+        cur_row = None
+        for e in before:
+            if e[0] == "elem" and not re.search(r"\]\[|\]\.", e[1]):
+                cur_row = e[1] if e[1] in per else None
+            elif e[0] in ("map-check", "set-check") and cur_row is not None:
+                per[cur_row][e[0]].append(e)
+        for r in batch:
+            for kind, what in (("map-check", "against the existing rows"), ("set-check", "against the other rows of the batch")):
+                if not per[r][kind]:
+                    g.queries.append(Query("untested_%d_%d" % (k, len(g.queries)), o.pc, "unsat",
+                                           note="a batch row's key is never tested %s before the table is modified" % what))
+                for c in per[r][kind]:
+                    g.queries.append(Query("present_%d_%d" % (k, len(g.queries)), o.pc + [c[2]], "unsat",
+                                           note="a batch row whose key is already present (%s) still gets its cells interned / the table written" % what))
+        if wrote:
+            nwrite += 1
+            maps = set(e[1] for e in evs if e[0] == "map-insert")
+            w = [e for e in evs if e[0] == "write"][-1]
+            if sorted(set(ins_rows)) != batch:
+                g.queries.append(Query("notinserted_%d" % k, o.pc, "unsat", note="%d batch rows but only %d insertions into the key-ordered map before the write" % (len(batch), len(ins_rows))))
+            if len(maps) > 1 or not any(a == "vec(into_values(%s))" % m for m in (maps or {"?"}) for a in w[1:]) and (maps or batch):
+                if maps:
+                    g.queries.append(Query("notmap_%d" % k, o.pc, "unsat", note="the rows written are not the values of the key-ordered map in key order: write%r" % (w[1:],)))
+            touched = [e for e in evs if e[0] == "call" and any("into_values(" in str(a) for a in e[2:])]
+            if touched:
+                g.queries.append(Query("reordered_%d" % k, o.pc, "unsat", note="the map's values are handed to %s before being written (order no longer the map's)" % touched[0][1][-60:]))
+            if len(g.witness) < 30 and batch:
+                g.witness.append(Query("w_%d" % k, o.pc, "sat"))
+    g.queries.append(Query("paths", ["false"], "unsat", note="%d paths reach the final write" % nwrite))
+    if nwrite < 4:
+        raise EncodingError("insert keys: only %d paths reach the final write" % nwrite)
+    return [g]
+
+
+def c05_all(mir, ctx):
+    return c05_update_group(mir, ctx) + c05_insert_group(mir, ctx)
+
+
 def c12_all(mir, ctx):
     return c12_join_group(mir, ctx) + c12_select_gate_group(mir, ctx)
 
@@ -1812,7 +2145,7 @@ def _proto(which):
 
 BUILDERS = {"C18": c18_groups, "C19": c19_groups, "C14": c14_groups, "C20": c20_all, "C09": c20_groups,
             "C01": _proto({"mutators", "finish", "close"}), "C10": _proto({"mutators", "finish"}),
-            "C15": _proto({"finish", "close"}), "C16": _proto({"readonly"}), "C08": c08_all, "C04": _proto({"reject"}), "C11": c11_all, "C07": c07_insert_gate_group, "C12": c12_all}
+            "C15": _proto({"finish", "close"}), "C16": _proto({"readonly"}), "C08": c08_all, "C04": _proto({"reject"}), "C11": c11_all, "C07": c07_insert_gate_group, "C12": c12_all, "C05": c05_all}
 
 
 def native_confirm_c18(vals, work):
